@@ -9,9 +9,15 @@ require (
 )
 
 require (
+	github.com/boyter/scc v0.0.0-20200907020550-91af61dfda0d // indirect
+	github.com/dbaggerman/cuba v0.3.2 // indirect
 	github.com/huleTW/bad-smell-analysis v0.1.0 // indirect
 	github.com/iancoleman/strcase v0.0.0-20191112232945-16388991a334 // indirect
+	github.com/json-iterator/go v1.1.9 // indirect
 	github.com/mattn/go-runewidth v0.0.7 // indirect
+	github.com/minio/blake2b-simd v0.0.0-20160723061019-3f5f724cb5b1 // indirect
+	github.com/modern-go/concurrent v0.0.0-20180306012644-bacd9c7ef1dd // indirect
+	github.com/modern-go/reflect2 v0.0.0-20180701023420-4b7aa43c6742 // indirect
 	github.com/olekukonko/tablewriter v0.0.4 // indirect
 	github.com/sabhiram/go-gitignore v0.0.0-20180611051255-d3107576ba94 // indirect
 	github.com/spf13/cobra v0.0.5 // indirect
@@ -21,6 +27,7 @@ require (
 	golang.org/x/net v0.0.0-20190620200207-3b0461eec859 // indirect
 	golang.org/x/text v0.3.0 // indirect
 	gonum.org/v1/gonum v0.6.2 // indirect
+	gopkg.in/yaml.v2 v2.2.4 // indirect
 )
 
 replace github.com/modernizing/coca => /repo
